@@ -173,7 +173,7 @@ theorem down_offer_lazy {P : Par} (hP : P.Ok) {w : W} (hq : QuietLazy P w) (fram
       rw [hg, hzq.2, hylp]; exact hS.live
   refine ⟨_, rfl, ?_, ?_, ?_, ?_, ?_, ?_⟩
   · rw [hw1, ← hDdef]
-    refine ⟨hq.ph, hq.cst, hq.cnt, hq.idleC, hq.up, ⟨H.name, Server.scPkt yy D, rfl, ?_, hfp⟩, Or.inl ⟨rfl, rfl, rfl⟩,
+    refine ⟨hq.ph, hq.cst, hq.cnt, hq.idleC, hq.up, ⟨H.name, Server.scPkt yy D, rfl, ?_, hfp⟩, Or.inl ⟨rfl, rfl, 1, Nat.le_refl _, by omega, rfl⟩,
       Or.inr (recentSeqno_next _ hq.cst.iseq), hsqr, hDpos, by omega, ⟨hstat, ?_, ?_, ?_, ?_, ?_⟩, ?_, ?_, ?_, ?_, ?_⟩
     · rw [headD_eq_getD]
       have := hHM.c0
